@@ -22,12 +22,24 @@
    a named deviation, the journal is marked empty, and the ring is what a sequential writer leaves -- no control block
    carries a transaction id beyond the transaction the replay stopped at (tid < JsbAfter.seq).  A block with a higher
    tid (an intact transaction behind a damaged one, a wrongly-sequenced block) is an alias of a future transaction that
-   no sequence number in the superblock can rule out. *)
+   no sequence number in the superblock can rule out.
+
+   Transaction identifiers wrap (Jbd2: tid = (base + offset) mod 2^32).  The generator's behaviours do not depend on the
+   base; what recovery does with them may.  TidBases is the boundary catalogue of the base: in every state in which Recover
+   is enabled, its outcome is required to be exact for every base of the catalogue (RecoverExactAnyBase: the blocks and the
+   journal superblock RecoverAt(b) leaves are Final and JsbAfter, the passes agree).  An outcome without deviation is
+   therefore the same state for every base, and the behaviours that go on from it (Restart) are those explored:
+     TidWrapU   offsets z on which tid 0 lands            (base = 2^32 - z:  0xffffffff, 0xfffffffe, ..)
+     TidWrapS   offsets z on which tid 0x80000000 lands   (base = 0x80000000 - z:  0x7fffffff, 0x7ffffffe, ..)
+     TidSmall   small bases b                             (0: offsets are the tids)
+   With z ranging over 1 .. the last offset a behaviour can reach + 2, the log of the first and of the second life
+   crosses the boundary at every transaction. *)
 EXTENDS Jbd2
 
 CONSTANTS MaxGen,       \* lives of the log a behaviour may go through (1: exactly the behaviours of Jbd2)
           Skews,        \* subset of {0, 1}
-          MaxOver       \* in-place rewrites per life after the first
+          MaxOver,      \* in-place rewrites per life after the first
+          TidWrapU, TidWrapS, TidSmall      \* boundary catalogue of the tid base (sets of naturals)
 
 VARIABLES gen,          \* current life of the log (1, 2, ..)
           tid0,         \* first transaction id of this life
@@ -55,6 +67,8 @@ Overwrite(b) ==
    /\ fs' = [fs EXCEPT ![b] = ver + 1] /\ ver' = ver + 1 /\ nover' = nover + 1
    /\ UNCHANGED <<jc, log, head, nseq, jsb, nr, hist, ndmg, phase, res, gen, tid0>>
 
+TidBases == {BaseWrapU(z) : z \in TidWrapU} \cup {BaseWrapS(z) : z \in TidWrapS} \cup {BaseSmall(b) : b \in TidSmall}
+
 GInit == Init /\ gen = 1 /\ tid0 = 1 /\ nover = 0
 GNext == \/ Next /\ UNCHANGED <<gen, tid0, nover>>
          \/ \E sk \in Skews : Restart(sk)
@@ -64,4 +78,16 @@ GSpec == GInit /\ [][GNext]_gvars
 \* every life may append MaxTxn + 2 transactions (as Bound of Jbd2 for the first life)
 GBound == nseq <= tid0 + MaxTxn + 1
 GTypeOK == TypeOK /\ gen \in 1..MaxGen /\ nover \in 0..MaxOver
+\* the state invariants of Jbd2 for every base of the catalogue
+RecoverExactAnyBase == \A b \in TidBases : RecoverExactAt(b)
+\* the arithmetic itself: on the offsets a behaviour can reach (GBound: MaxTxn + 2 per life, restart at most 2 further)
+\* the modulo-2^32 signed comparison is the order of the offsets and the successor is +1 modulo 2^32, for every base of
+\* the catalogue -- what makes the offset representation exact
+MaxOffset == MaxGen * (MaxTxn + 4) + 2
+ASSUME TidOrderSound ==
+   \A b \in TidBases : \A x, y \in 0..MaxOffset :
+      LET C == [tb |-> b] IN
+      /\ TidGt(C, x, y) = (x > y) /\ TidGeq(C, x, y) = (x >= y) /\ TidEq(C, x, y) = (x = y)
+      /\ Conc(C, x + 1) = Add32(Conc(C, x), 1)
+      /\ TidIsZero(C, x) = (b = BaseWrapU(x))
 =============================================================================
